@@ -22,8 +22,11 @@ SOURCE = os.path.join(C.REPO, "src", "zope", "interface", "interface.py")
 RULE = ("real ``def``s: every combination of 0..4 positional-only, 0..4 positional-or-keyword (every legal "
         "number of defaults), 0..4 keyword-only parameters, with/without *name and **name, plus a random "
         "stream with random names (incl. parameters called args/kw/self), locals and function attributes; "
-        "described through fromFunction(f), fromMethod(bound), fromFunction(f, imlevel=1) and "
-        "class I(Interface): def f; a case is non-trivial when the function has at least one parameter; "
+        "described through fromFunction(f), fromMethod(bound), fromFunction(f, imlevel=1), "
+        "class I(Interface): def f and class IA(ABCInterface) over class A(abc.ABC): def f; methods without a "
+        "named positional parameter through every route; SEQUENCES of two descriptions in one process where the "
+        "second function shares the first one's __code__ but not its __defaults__ (closure sibling, "
+        "types.FunctionType, f.__defaults__ reassigned); a case is non-trivial when the function has at least one parameter; "
         "distinct = distinct (via, #posonly, #pos, #defaults, #kwonly, has*, has**)")
 TRUSTED_BASE = [
     "CPython function-object layout as stated by Spec/Signature.v layout (co_varnames = positional-only ++ "
@@ -38,14 +41,16 @@ TRUSTED_BASE = [
 ]
 ASSUMPTIONS = ["parameter names are non-empty identifiers (``if self.varargs`` tests the name's truth value)",
                "defaults / attribute values are compared by identity against the case's object table",
-               "imlevel does not exceed the number of positional parameters (a bound ``def f(*a)`` is outside the property)"]
+               "a bound callable without positional parameter and without *args has no inspect.signature; "
+               "its description is judged against the function's own signature (nothing stripped)"]
 
 OBJS = ["1", "'s'", "None", "(1, 2)", "2.5", "-7", "'a b'", "True", "'\\u00e9'", "()", "1000003", "[]"]
 PLAIN = ["a", "b", "c", "d", "e", "x", "y", "z", "p", "q", "r", "s", "t", "u", "v", "w", "n", "m", "i", "j",
          "k", "key", "value", "default", "name", "obj", "_", "_x", "long_parameter_name", "été"]
 TRICKY = ["args", "kw", "kwargs", "self", "cls", "opt", "names", "code", "func", "method"]
 VIA_TEXT = {0: "fromFunction(f)", 1: "fromMethod(C().f)", 2: "fromFunction(f, imlevel=1)",
-            3: "I['f'] for class I(Interface): def f"}
+            3: "I['f'] for class I(Interface): def f", 4: "IA['f'] for class IA(ABCInterface): abc = A"}
+NVIA = 5
 
 
 # --------------------------------------------------------------------------- generation
@@ -68,15 +73,31 @@ def build_src(shape, via):
     body = (" = ".join(shape["locals"]) + " = None") if shape["locals"] else "pass"
     lines = ["def f(%s):" % ", ".join(parts), "    " + body]
     lines += ["f.%s = _o[%d]" % (k, v) for k, v in shape["attrs"]]
-    if via in (1, 3):
+    if via in (1, 3, 4):
         lines.append("_keep.append(f)")
-        head = "class C:" if via == 1 else "class I(Interface):"
+        head = {1: "class C:", 3: "class I(Interface):", 4: "class A(abc.ABC):"}[via]
         lines = [head] + ["    " + ln for ln in lines]
+        if via == 4:
+            lines += ["class IA(ABCInterface):", "    abc = A"]
     return "\n".join(lines) + "\n"
 
 
-def make_case(shape, via):
-    return {"src": build_src(shape, via), "via": via, "objs": OBJS, "attrs": shape["attrs"], "shape": shape}
+def make_case(shape, via, sibling=None):
+    c = {"src": build_src(shape, via), "via": via, "objs": OBJS, "attrs": shape["attrs"], "shape": shape}
+    if sibling:
+        c["sibling"] = sibling
+    return c
+
+
+def _sibling(rng, shape):
+    """second function object sharing f's code object but not its __defaults__ (or f itself after
+    its __defaults__ were reassigned): described after f in the same process"""
+    npos = len(shape["posonly"]) + len(shape["pos"])
+    how = rng.choice(["closure", "functype", "functype", "setdefaults", "setdefaults"])
+    if how == "closure":
+        return {"how": how, "rot": rng.randrange(1, len(OBJS))}
+    nd = rng.randint(0, npos)
+    return {"how": how, "defaults": [rng.randrange(len(OBJS)) for _ in range(nd)]}
 
 
 def _names(rng, n, tricky):
@@ -122,23 +143,42 @@ def generate(run, tier):
     k = 0
     for n0, n1, nk, va, vk in itertools.product(range(5), range(5), range(5), (False, True), (False, True)):
         for nd in range(n0 + n1 + 1):
-            vias = (0, 1, 2, 3) if tier == "thorough" else (k % 4,)
+            vias = range(NVIA) if tier == "thorough" else (k % NVIA,)
             k += 1
             for via in vias:
                 sh = _shape(rng, n0, n1, nd, nk, va, vk, rng.choice([0, 0, 1, 2]), rng.choice([0, 0, 1]),
-                            tricky=rng.random() < 0.3, self_first=(via in (1, 2) and rng.random() < 0.7))
+                            tricky=rng.random() < 0.3, self_first=(via in (1, 2, 4) and rng.random() < 0.7))
                 cases.append(make_case(sh, via))
-    n = 900 if tier == "quick" else 8000
+    # methods without a named positional parameter (def f(*args), def f(**kw), def f(*a, **k),
+    # keyword-only ...) through every route, bound ones included: nothing is stripped
+    for nk, va, vk in itertools.product(range(4), (False, True), (False, True)):
+        for via in range(NVIA):
+            sh = _shape(rng, 0, 0, 0, nk, va, vk, rng.choice([0, 1, 2]), rng.choice([0, 1]), tricky=rng.random() < 0.5)
+            cases.append(make_case(sh, via))
+    n = 700 if tier == "quick" else 8000
     top = 4 if tier == "quick" else 7
     for _ in range(n):
         n0, n1, nk = rng.randint(0, top), rng.randint(0, top), rng.randint(0, top)
-        via = rng.randrange(4)
-        if via in (1, 2) and n0 + n1 == 0 and rng.random() < 0.9:
-            n1 = 1
+        via = rng.randrange(NVIA)
+        if rng.random() < 0.1:
+            n0 = n1 = 0
         sh = _shape(rng, n0, n1, rng.randint(0, n0 + n1), nk, rng.random() < 0.6, rng.random() < 0.6,
                     rng.randint(0, 4), rng.randint(0, 3), tricky=rng.random() < 0.5,
-                    self_first=(via in (1, 2) and rng.random() < 0.5))
+                    self_first=(via in (1, 2, 4) and rng.random() < 0.5))
         cases.append(make_case(sh, via))
+    # SEQUENCES: describe f, then a second function object with the same __code__ and other
+    # __defaults__ (closure sibling / types.FunctionType / f.__defaults__ reassigned); the second
+    # description is the one judged
+    n = 600 if tier == "quick" else 5000
+    for _ in range(n):
+        n0, n1, nk = rng.randint(0, 3), rng.randint(0, 3), rng.randint(0, 2)
+        if n0 + n1 == 0:
+            n1 = rng.randint(1, 3)
+        via = rng.randrange(NVIA)
+        sh = _shape(rng, n0, n1, rng.randint(0, n0 + n1), nk, rng.random() < 0.4, rng.random() < 0.4,
+                    rng.randint(0, 2), rng.randint(0, 2), tricky=rng.random() < 0.3,
+                    self_first=(via in (1, 2, 4) and rng.random() < 0.5))
+        cases.append(make_case(sh, via, _sibling(rng, sh)))
     return cases
 
 
@@ -175,8 +215,19 @@ def coq_case(case, obs, mode):
         co["argcount"], co["kwonly"], C.clist([str(nm(x)) for x in co["varnames"]]), C.cbool(co["va"]),
         C.cbool(co["vk"]), C.clist([str(_o(d)) for d in co["defaults"]]), _pairs(nm, co["fdict"]))
     view_f = _view(nm, obs["view_f"])
-    view_t = _view(nm, obs["view_t"] if obs["view_t"] is not None else obs["view_f"])
-    attrs = _pairs(nm, case.get("attrs", []))
+    vt = obs["view_t"]
+    if vt is None:
+        # inspect.signature refuses to bind a callable without a positional parameter and without
+        # *args ("invalid method signature"): the description keeps every parameter
+        drop = 1 if case["via"] in (1, 2, 4) else 0
+        npos = sum(1 for p in obs["view_f"] if p[1] <= 1)
+        vt = obs["view_f"][min(drop, npos):]
+    view_t = _view(nm, vt)
+    exp_attrs = case.get("attrs", [])
+    sib = case.get("sibling")
+    if sib and sib["how"] == "closure":     # the second run of the def saw the rotated object table
+        exp_attrs = [[k, (v + sib["rot"]) % len(case["objs"])] for k, v in exp_attrs]
+    attrs = _pairs(nm, exp_attrs)
     other = False
     if "info" in obs and "sigstr" in obs and "tagged" in obs and "exc" not in obs:
         i = obs["info"]
@@ -203,30 +254,55 @@ def _sig(obs):
 def classify(case, obs):
     if "broken" in obs or not obs.get("view_f"):
         return None
-    return (case["via"],) + _sig(obs)
+    return (case["via"], (case.get("sibling") or {}).get("how")) + _sig(obs)
 
 
 def kind(case, obs):
     s = _sig(obs) if "broken" not in obs else None
-    return "via=%s%s" % (VIA_TEXT.get(case["via"], case["via"]),
-                         "" if s is None else (" kwonly" if s[3] else "") + (" posonly" if s[0] else ""))
+    sib = case.get("sibling")
+    return "via=%s%s%s" % (VIA_TEXT.get(case["via"], case["via"]),
+                           "" if s is None else (" kwonly" if s[3] else "") + (" posonly" if s[0] else "")
+                           + (" no-positional" if s[0] + s[1] == 0 else ""),
+                           " after-sibling:" + sib["how"] if sib else "")
 
 
 def finding_key(case, obs, mode):
     s = _sig(obs)
-    return "via%d/posonly%d/pos%d/defaults%d/kwonly%d/star%d/starstar%d" % ((case["via"],) + tuple(int(x) for x in s))
+    return "via%d/posonly%d/pos%d/defaults%d/kwonly%d/star%d/starstar%d%s" % (
+        (case["via"],) + tuple(int(x) for x in s) + ("/after-" + case["sibling"]["how"] if case.get("sibling") else "",))
 
 
 def replay_text(case, obs, mode):
     via = case["via"]
-    call = {0: "m = fromFunction(f)", 1: "m = fromMethod(C().f)", 2: "m = fromFunction(f, imlevel=1)",
-            3: "m = I['f']"}[via]
-    return ("# PURE_PYTHON=%s\nimport inspect\nfrom zope.interface import Interface\n"
-            "from zope.interface.interface import fromFunction, fromMethod\n_o = [%s]\n_keep = []\n%s%s\n"
-            "print(m.getSignatureInfo(), m.getSignatureString())\n"
-            "# observed: info=%r string=%r exc=%r\n# inspect.signature view of f (name, kind, default index): %r"
-            % ("1" if mode == "py" else "0", ", ".join(case["objs"]), case["src"], call, obs.get("info"),
-               obs.get("sigstr"), obs.get("exc"), obs.get("view_f")))
+    fn = "f" if via in (0, 2) else "_keep[0]"
+    call = {0: "m = fromFunction(%s)", 1: "m = fromMethod(types.MethodType(%s, object()))",
+            2: "m = fromFunction(%s, imlevel=1)", 3: "m = InterfaceClass('I', (Interface,), {'f': %s})['f']",
+            4: "m = type(ABCInterface)('IA', (ABCInterface,), {'abc': abc.ABCMeta('A', (), {'f': %s})})['f']"}[via]
+    text = ("# PURE_PYTHON=%s\nimport abc, inspect, types\nfrom zope.interface import Interface\n"
+            "from zope.interface.common import ABCInterface\n"
+            "from zope.interface.interface import InterfaceClass, fromFunction, fromMethod\n_o = [%s]\n_keep = []\n%s"
+            % ("1" if mode == "py" else "0", ", ".join(case["objs"]), case["src"]))
+    sib = case.get("sibling")
+    if sib:
+        text += "%s   # first description\nprint(m.getSignatureInfo())\n" % (call % fn)
+        if sib["how"] == "closure":
+            text += ("# second function object from the same def executed again with the object table rotated by %d\n"
+                     "# (closure factory sibling: same __code__, other __defaults__) -- see harness/drivers/c18_driver.py\n"
+                     % sib["rot"])
+            dflt = "tuple(_o[(_o.index(d) + %d) %% len(_o)] for d in (%s.__defaults__ or ()))" % (sib["rot"], fn)
+        else:
+            dflt = "(%s)" % "".join("_o[%d], " % i for i in sib["defaults"])
+        if sib["how"] == "setdefaults":
+            text += "%s.__defaults__ = %s or None\ng = %s\n" % (fn, dflt, fn)
+        else:
+            text += ("g = types.FunctionType(%s.__code__, globals(), 'f', %s or None)\n"
+                     "g.__kwdefaults__ = %s.__kwdefaults__; g.__dict__.update(%s.__dict__)\n" % (fn, dflt, fn, fn))
+        fn = "g"
+    text += ("%s\nprint(m.getSignatureInfo(), m.getSignatureString(), inspect.signature(%s))\n"
+             "# observed: info=%r string=%r exc=%r\n# inspect.signature view of the described function "
+             "(name, kind, default index): %r"
+             % (call % fn, fn, obs.get("info"), obs.get("sigstr"), obs.get("exc"), obs.get("view_f")))
+    return text
 
 
 # --------------------------------------------------------------------------- regeneration
@@ -260,7 +336,7 @@ TECHNIQUE = ("Coq proof over a Gallina kernel regenerated from interface.fromFun
              "translator; CPython layout assumption and correspondence checked by vm_compute on real defs")
 LEVEL_TEXT = ("Machine-checked theorems (Properties/C18.v, 3 theorems, closed under the global context) state, for every "
               "valid signature with any number of positional-only / positional / keyword-only parameters, any "
-              "defaults, optional * and **, any locals and any imlevel not exceeding the positional count, that the "
+              "defaults, optional * and **, any locals and any imlevel (clamped to the positional count), that the "
               "kernel translated from the current source returns exactly the signature's description, that "
               "getSignatureString renders it, and that fromMethod strips the first parameter.  The kernel is "
               "regenerated and the proofs re-checked on every run; generated defs are executed in both modes and "
@@ -268,4 +344,4 @@ LEVEL_TEXT = ("Machine-checked theorems (Properties/C18.v, 3 theorems, closed un
 LEVEL_NOTE = ("Trusted: Coq kernel/vm_compute; the translator and the Python-primitive semantics of Model/PyFunc.v "
               "(validated by correspondence); CPython's code-object layout (Spec layout, validated against every "
               "generated def each run); Method.getSignatureString and InterfaceClass/verify call sites are "
-              "hand-modelled (validated by correspondence).  ABCInterfaceClass.__method_from_function is not covered.")
+              "hand-modelled (validated by correspondence), ABCInterfaceClass.__method_from_function included.")
